@@ -8,7 +8,9 @@ RULE = ("the E1 histories of C01/C04/C13 and the E2/E3 Buf scripts of C10 run wi
 ASSUMPTIONS = ["feature sets (no-default-features, extra-platforms) are compile-time selections outside the model: exercised by correspondence in the thorough tier only"]
 TRUSTED_EXTRA = []
 DIRECT = r"^c16-|^c01-|^c13-(missing|unexpected)"
-def translators(ctx, bins): eng_buf.translators(ctx, bins)
+def translators(ctx, bins):
+    eng_buf.translators(ctx, bins)
+    eng_heap.translators(ctx)
 def engines(ctx, bins):
     res = eng_heap.run(ctx, bins)
     eng_heap.absorb(ctx, res, DIRECT)
